@@ -5,7 +5,7 @@ open M_c03
    the last five are ground truth / abstract values supplied by the generator and ignored by the C side:
      sf  identity of the key that really signed the TBS the node carries (0 = nobody we know)
      kf  identity of the public key the node carries
-     ta  the algorithm that TBS was really signed with
+     ta  the algorithm that TBS was really signed with (0 = ECDSA: verification does not look at the OID)
      p3  issuedBefore(RFC_3280) of the node's notBefore;  dn  validateDateRange verdict "now"
    argv[1] = "pinned" selects the model of the unrepaired code (default: repaired). *)
 let fx = not (Array.length Sys.argv > 1 && Sys.argv.(1) = "pinned")
@@ -36,7 +36,7 @@ let mk_sig_ok (nodes : node list) : n -> n -> n -> n -> bool =
     let t = int_of_n tbs in
     match List.assoc_opt t tbl with
     | None -> false
-    | Some (signer, talg) -> int_of_n sg = 2 * t && signer <> 0 && int_of_n key = signer && int_of_n alg = talg
+    | Some (signer, talg) -> int_of_n sg = 2 * t && signer <> 0 && int_of_n key = signer && (talg = 0 || int_of_n alg = talg)
 
 let show (r : vres) : string =
   let f = match r.v_found with FNone -> "-" | FChain i -> "c" ^ string_of_int (int_of_nat i) | FAnchor i -> "a" ^ string_of_int (int_of_nat i) in
